@@ -107,6 +107,30 @@ def m_abs_diff(it, st, fr, t, args, ga):
     return I.Num(t_abs(a.term - b.term, st.ctx), a.ty)
 
 
+def _float_class(it, st, x):
+    """'nan' | 'inf' | 'finite' | None (unknown)"""
+    from .terms import PINF_ATOM, NINF_ATOM
+    if x.term.is_nan():
+        return 'nan'
+    a = x.term.as_single_atom()
+    if a in (PINF_ATOM, NINF_ATOM):
+        return 'inf'
+    lo, hi = st.ctx.rng(x.term)
+    if lo > -INF and hi < INF:
+        return 'finite'
+    return None
+
+
+def _float_pred(name, truth):
+    def m(it, st, fr, t, args, ga):
+        x = _num(args[0])
+        c = _float_class(it, st, x)
+        if c is None:
+            return I.BoolV(b_app(name, [x.term]))
+        return I.BoolV(bconst(truth[c]))
+    return m
+
+
 def m_identity(it, st, fr, t, args, ga):
     return args[0]
 
@@ -381,7 +405,7 @@ def elem_term(term, idx, length, ctx, ety=None):
     while isinstance(term, tuple) and term:
         if term[0] == 'from':
             idx = idx + term[2]
-            length = None
+            length = (length + term[2]) if length is not None else None
             term = term[1]
             continue
         if term[0] == 'push' and length is not None and isinstance(term[2], Poly):
@@ -416,6 +440,8 @@ def select_term(fname, term, length, ctx, ety=None):
         return tm
     if fname == 'last':
         return elem_term(term, length - 1, length, ctx, ety)
+    if length is not None and ctx.decide(cmp_term('Eq', length, 1)) is True:
+        return elem_term(term, ZERO, length, ctx, ety)    # max/min of a one-element sequence is its element
     if isinstance(term, tuple) and term and term[0] == 'push' and isinstance(term[2], Poly):
         x = term[2]
         inner_len = length - 1
@@ -460,6 +486,26 @@ def _elem_value(it, st, c, idx_poly):
     return v
 
 
+def _closure_outcomes(it, st, clo, elem_value):
+    """abstract execution of a closure body that may branch: returns the list of end states (forked copies)"""
+    s2 = st.fork()
+    fn = it.facts.fns.get(clo.path)
+    if fn is None:
+        raise I.InterpError('closure body not in facts: %s' % clo.path)
+    sub = I.Frame(fn, fn, {}, len(s2.frames))
+    cl_cell = s2.new_cell(clo)
+    sub.locals[1] = s2.new_cell(I.RefV(cl_cell, (), True))
+    sub.locals[2] = s2.new_cell(I.RefV(s2.new_cell(elem_value)))
+    s2.frames.append(sub)
+    s2.probe = (len(s2.frames) - 1, None, frozenset(range(len(fn['blocks']))))
+    outs = it.run(s2)
+    bad = [o for o in outs if o.status not in ('probe-exit',)]
+    for o in bad:
+        if o.status in ('panic', 'stuck'):
+            raise I.InterpError('closure body %s: %s' % (o.status, o.panic_info))
+    return [o for o in outs if o.status == 'probe-exit']
+
+
 def m_for_each(it, st, fr, t, args, ga):
     c = _cont(it, st, args[0])
     clo = args[1]
@@ -467,22 +513,34 @@ def m_for_each(it, st, fr, t, args, ga):
         raise I.InterpError('for_each with non-closure')
     n = c.len.const_value()
     if n is not None and n <= 8:
-        for i in range(int(n)):
-            ev = _elem_value(it, st, c, Poly.const(i))
-            cell = st.new_cell(ev)
-            it.call_closure(st, clo, [I.RefV(cell)])
-        return I.UnitV()
+        snapshot = st.fork()
+        try:
+            for i in range(int(n)):
+                ev = _elem_value(it, st, c, Poly.const(i))
+                cell = st.new_cell(ev)
+                it.call_closure(st, clo, [I.RefV(cell)])
+            return I.UnitV()
+        except I.InterpError as e:
+            if 'fork inside closure' not in str(e):
+                raise
+            # branching closure: unroll on forked copies of the untouched state, following every branch
+            states = [snapshot]
+            for i in range(int(n)):
+                nxt = []
+                for s_ in states:
+                    ev = _elem_value(it, s_, c, Poly.const(i))
+                    prev_probe = getattr(s_, 'probe', None)
+                    for o in _closure_outcomes(it, s_, clo, ev):
+                        s3 = o.state
+                        s3.frames.pop()
+                        s3.probe = prev_probe
+                        s3.status = 'running'
+                        nxt.append(s3)
+                states = nxt
+                if len(states) > 256:
+                    raise I.InterpError('for_each unrolling explodes')
+            return ('states', [(s_, I.UnitV()) for s_ in states])
     # unknown trip count: Kleene iteration on the ranges of the captured scalar targets
-    targets = []
-    for cap in clo.caps:
-        if isinstance(cap, I.RefV) and cap.mut:
-            tv = it.deref(st, cap)
-            if isinstance(tv, I.Num):
-                targets.append((cap, tv))
-            else:
-                # reference to a whole object (e.g. &mut self): collect its scalar leaves
-                targets.append((cap, tv))
-    pre = {}
     leaves = []
 
     def collect(ref, v, path):
@@ -491,48 +549,58 @@ def m_for_each(it, st, fr, t, args, ga):
         elif isinstance(v, I.StructV):
             for i, f in enumerate(v.fields):
                 collect(ref, f, path + (('field', i),))
-    for ref, tv in targets:
-        collect(ref, tv, ())
+    for cap in clo.caps:
+        if isinstance(cap, I.RefV) and cap.mut:
+            collect(cap, it.deref(st, cap), ())
     cur = {}
     for ref, path, v in leaves:
         cur[(ref.cell, ref.proj + path)] = st.ctx.rng(v.term)
     orig_terms = {(ref.cell, ref.proj + path): v.term for ref, path, v in leaves}
     changed_keys = set()
-    for rounds in range(6):
-        # set leaves to fresh symbols ranging over the current hull
+    last_outs = []
+    zero_iter = n == 0
+    for rounds in range(6 if not zero_iter else 0):
+        s1 = st.fork()
         syms = {}
         for ref, path, v in leaves:
             key = (ref.cell, ref.proj + path)
-            a = ('sym', st.fresh_name('fe'))
-            st.ctx.ranges[a] = cur[key]
+            a = ('sym', s1.fresh_name('fe'))
+            s1.ctx.ranges[a] = cur[key]
             if v.ty in I.INT_RANGES:
-                st.ctx.int_atoms.add(a)
+                s1.ctx.int_atoms.add(a)
             syms[key] = a
-            it.store_ref(st, I.RefV(ref.cell, ref.proj + path, True), I.Num(Poly.atom(a), v.ty))
-        ev = _elem_value(it, st, c, Poly.sym(st.fresh_name('i')))
-        cell = st.new_cell(ev)
-        it.call_closure(st, clo, [I.RefV(cell)])
+            it.store_ref(s1, I.RefV(ref.cell, ref.proj + path, True), I.Num(Poly.atom(a), v.ty))
+        ev = _elem_value(it, s1, c, s1.ctx.sym_range(s1.fresh_name('i'), 0, 2 ** 32, integer=True))
+        outs = _closure_outcomes(it, s1, clo, ev)
+        last_outs = outs
         stable = True
-        for ref, path, v in leaves:
-            key = (ref.cell, ref.proj + path)
-            nv = it.deref(st, I.RefV(ref.cell, ref.proj + path))
-            if nv.term == Poly.atom(syms[key]):
-                continue
-            changed_keys.add(key)
-            lo, hi = st.ctx.rng(nv.term)
-            olo, ohi = cur[key]
-            nlo, nhi = min(lo, olo), max(hi, ohi)
-            if (nlo, nhi) != (olo, ohi):
-                stable = False
-                if rounds >= 3 and v.ty in I.INT_RANGES:
-                    tlo, thi = I.INT_RANGES[v.ty]
-                    nlo = Fr(tlo) if nlo < olo else nlo
-                    nhi = Fr(thi) if nhi > ohi else nhi
-                cur[key] = (nlo, nhi)
+        for o in outs:
+            for ref, path, v in leaves:
+                key = (ref.cell, ref.proj + path)
+                nv = it.deref(o.state, I.RefV(ref.cell, ref.proj + path))
+                if not isinstance(nv, I.Num) or nv.term == Poly.atom(syms[key]):
+                    continue
+                changed_keys.add(key)
+                lo, hi = o.ctx.rng(nv.term)
+                olo, ohi = cur[key]
+                nlo, nhi = min(lo, olo), max(hi, ohi)
+                if (nlo, nhi) != (olo, ohi):
+                    stable = False
+                    if rounds >= 3 and v.ty in I.INT_RANGES:
+                        tlo, thi = I.INT_RANGES[v.ty]
+                        nlo = Fr(tlo) if nlo < olo else nlo
+                        nhi = Fr(thi) if nhi > ohi else nhi
+                    cur[key] = (nlo, nhi)
         if stable:
             break
-    # post-state: changed leaves become fresh symbols over the stable hull (or keep the original term when
-    # the loop may run zero times and never changes them)
+    # obligations met inside the body (last, stable round) belong to this call
+    seen_keys = {(ob.key, ob.status) for ob in st.obligations}
+    for o in last_outs:
+        for ob in o.obligations:
+            if (ob.key, ob.status) not in seen_keys:
+                seen_keys.add((ob.key, ob.status))
+                st.obligations.append(ob)
+    # post-state: changed leaves become fresh symbols over the stable hull; untouched leaves keep their term
     for ref, path, v in leaves:
         key = (ref.cell, ref.proj + path)
         if key in changed_keys:
@@ -544,7 +612,6 @@ def m_for_each(it, st, fr, t, args, ga):
         else:
             it.store_ref(st, I.RefV(ref.cell, ref.proj + path, True), I.Num(orig_terms[key], v.ty))
     return I.UnitV()
-
 
 def m_range_incl_new(it, st, fr, t, args, ga):
     a, b = _num(args[0]), _num(args[1])
@@ -594,6 +661,16 @@ def m_slice_iter_next(it, st, fr, t, args, ga):
     n = c.len.const_value() if c.len is not None else None
     if n == 0:
         return ('fork', [(None, none_)])
+    if n is not None and n <= 4 and not c.extra.get('havocked'):
+        # short constant-length sequence: deterministic iteration (the loop is unrolled by the interpreter)
+        pos = c.extra.get('pos', 0)
+        if pos >= n:
+            return none()
+        c.extra = dict(c.extra)
+        c.extra['pos'] = pos + 1
+        v = _elem_value(it, st, c, Poly.const(pos))
+        st.last_iter_elem = (c.term, v, c.len)
+        return some(I.RefV(st.new_cell(v)))
     return ('fork', [(None, some_), (None, none_)])
 
 
@@ -692,6 +769,46 @@ def norm(path):
     return path
 
 
+def m_checked(op):
+    def m(it, st, fr, t, args, ga):
+        a, b = _num(args[0]), _num(args[1])
+        lo, hi = _int_bounds(a)
+        r = {'add': a.term + b.term, 'sub': a.term - b.term, 'mul': a.term * b.term}[op]
+        inb = band(cmp_term('Ge', r, lo), cmp_term('Le', r, hi))
+        return ('fork', [(inb, some(I.Num(r, a.ty))), (bnot(inb), none())])
+    return m
+
+
+def m_recip(it, st, fr, t, args, ga):
+    x = _num(args[0])
+    return I.Num(t_div(ONE, x.term, st.ctx), x.ty)
+
+
+def m_mul_add(it, st, fr, t, args, ga):
+    a, b, c = _num(args[0]), _num(args[1]), _num(args[2])
+    return I.Num(a.term * b.term + c.term, a.ty)
+
+
+def m_map_or(it, st, fr, t, args, ga):
+    e, d, clo = args[0], args[1], args[2]
+    v = _known_variant(e)
+    if v == 0:
+        return d
+    if isinstance(clo, I.ClosureV):
+        return it.call_closure(st, clo, [e.payload[1][0]])
+    raise I.InterpError('map_or with non-closure')
+
+
+def m_is_some(it, st, fr, t, args, ga):
+    e = it.deref(st, args[0]) if isinstance(args[0], I.RefV) else args[0]
+    return I.BoolV(bconst(_known_variant(e) == 1))
+
+
+def m_is_none(it, st, fr, t, args, ga):
+    e = it.deref(st, args[0]) if isinstance(args[0], I.RefV) else args[0]
+    return I.BoolV(bconst(_known_variant(e) == 0))
+
+
 def registry():
     R = {
         'core::f32::<impl f32>::max': m_fmax,
@@ -739,11 +856,40 @@ def registry():
         'core::num::<impl i32>::wrapping_sub': _wrapping('sub'),
         'core::num::<impl i32>::wrapping_mul': _wrapping('mul'),
         'core::cmp::PartialEq::ne': m_partial_ne,
+        'core::f32::<impl f32>::is_finite': _float_pred('is_finite', {'nan': False, 'inf': False, 'finite': True}),
+        'core::f32::<impl f32>::is_nan': _float_pred('is_nan', {'nan': True, 'inf': False, 'finite': False}),
+        'core::f32::<impl f32>::is_infinite': _float_pred('is_infinite', {'nan': False, 'inf': True, 'finite': False}),
         'core::num::<impl u8>::abs_diff': m_abs_diff,
         'core::num::<impl u16>::abs_diff': m_abs_diff,
         'core::num::<impl u32>::abs_diff': m_abs_diff,
         'core::num::<impl u64>::abs_diff': m_abs_diff,
         'core::num::<impl usize>::abs_diff': m_abs_diff,
+        'core::num::<impl u8>::checked_add': m_checked('add'),
+        'core::num::<impl u8>::checked_sub': m_checked('sub'),
+        'core::num::<impl u8>::checked_mul': m_checked('mul'),
+        'core::num::<impl u16>::checked_add': m_checked('add'),
+        'core::num::<impl u16>::checked_sub': m_checked('sub'),
+        'core::num::<impl u16>::checked_mul': m_checked('mul'),
+        'core::num::<impl u32>::checked_add': m_checked('add'),
+        'core::num::<impl u32>::checked_sub': m_checked('sub'),
+        'core::num::<impl u32>::checked_mul': m_checked('mul'),
+        'core::num::<impl u64>::checked_add': m_checked('add'),
+        'core::num::<impl u64>::checked_sub': m_checked('sub'),
+        'core::num::<impl u64>::checked_mul': m_checked('mul'),
+        'core::num::<impl usize>::checked_add': m_checked('add'),
+        'core::num::<impl usize>::checked_sub': m_checked('sub'),
+        'core::num::<impl usize>::checked_mul': m_checked('mul'),
+        'core::num::<impl i16>::checked_add': m_checked('add'),
+        'core::num::<impl i16>::checked_sub': m_checked('sub'),
+        'core::num::<impl i16>::checked_mul': m_checked('mul'),
+        'core::num::<impl i32>::checked_add': m_checked('add'),
+        'core::num::<impl i32>::checked_sub': m_checked('sub'),
+        'core::num::<impl i32>::checked_mul': m_checked('mul'),
+        'core::f32::<impl f32>::recip': m_recip,
+        'core::f32::<impl f32>::mul_add': m_mul_add,
+        'core::option::Option::<T>::map_or': m_map_or,
+        'core::option::Option::<T>::is_some': m_is_some,
+        'core::option::Option::<T>::is_none': m_is_none,
         'core::convert::Into::into': m_identity,
         '<T as core::convert::Into<U>>::into': m_identity,
         '<T as core::convert::From<T>>::from': m_identity,
